@@ -1,4 +1,5 @@
 #include "runtime.h"
+#include "verif_hooks.h"
 #include "diagnostics/stacktrace.h"
 #include "d_array.h"
 #include "d_string.h"
@@ -15,6 +16,14 @@ static sqf::runtime::runtime::result execute_do(sqf::runtime::runtime& runtime, 
 {
     auto& context_active = runtime.context_active();
     auto& runtime_error = runtime.__runtime_error();
+#ifdef SQFVM_RUNTIME_VERIF
+    struct verif_slice_guard
+    {
+        sqf::runtime::runtime& rt;
+        ~verif_slice_guard() { auto f = sqf::runtime::verif::get_hooks().on_slice_end; if (f) { f(rt); } }
+    } verif_slice_guard_instance{ runtime };
+    if (sqf::runtime::verif::get_hooks().on_slice_begin) { sqf::runtime::verif::get_hooks().on_slice_begin(runtime, exit_after); }
+#endif // SQFVM_RUNTIME_VERIF
     while (true)
     {
         if (runtime.is_exit_requested())
@@ -77,6 +86,9 @@ static sqf::runtime::runtime::result execute_do(sqf::runtime::runtime& runtime, 
         if (result == sqf::runtime::frame::result::done && context_active.frames_size() == frame_count)
         { // frame is done executing. Pop it from context and rerun.
 
+#ifdef SQFVM_RUNTIME_VERIF
+            if (sqf::runtime::verif::get_hooks().on_frame_done) { sqf::runtime::verif::get_hooks().on_frame_done(runtime); }
+#endif // SQFVM_RUNTIME_VERIF
             // Pop possible return value
             auto val = context_active.pop_value();
 
@@ -203,7 +215,13 @@ static sqf::runtime::runtime::result execute_do(sqf::runtime::runtime& runtime, 
 #endif // DF__SQF_RUNTIME__ASSEMBLY_DEBUG_ON_EXECUTE
 
 
+#ifdef SQFVM_RUNTIME_VERIF
+        if (sqf::runtime::verif::get_hooks().on_instruction_before) { sqf::runtime::verif::get_hooks().on_instruction_before(runtime, **instruction); }
+#endif // SQFVM_RUNTIME_VERIF
         (*instruction)->execute(runtime);
+#ifdef SQFVM_RUNTIME_VERIF
+        if (sqf::runtime::verif::get_hooks().on_instruction_after) { sqf::runtime::verif::get_hooks().on_instruction_after(runtime, **instruction); }
+#endif // SQFVM_RUNTIME_VERIF
 
 
         if (!runtime_error)
@@ -264,6 +282,9 @@ sqf::runtime::runtime::result sqf::runtime::runtime::execute(sqf::runtime::runti
     case action::leave_scope:
         if (m_run_atomic.compare_exchange_weak(expected, true, std::memory_order::memory_order_seq_cst, std::memory_order::memory_order_seq_cst))
         {
+#ifdef SQFVM_RUNTIME_VERIF
+            if (sqf::runtime::verif::get_hooks().yield) { sqf::runtime::verif::get_hooks().yield(*this, sqf::runtime::verif::cas_leave_scope); }
+#endif // SQFVM_RUNTIME_VERIF
             m_is_exit_requested = false;
             m_is_halt_requested = false;
             auto scopeNum = m_context_active->frames_size() - 1;
@@ -302,6 +323,9 @@ sqf::runtime::runtime::result sqf::runtime::runtime::execute(sqf::runtime::runti
                 m_contexts.clear();
                 m_state = state::empty;
             }
+#ifdef SQFVM_RUNTIME_VERIF
+            if (sqf::runtime::verif::get_hooks().yield) { sqf::runtime::verif::get_hooks().yield(*this, sqf::runtime::verif::release_leave_scope); }
+#endif // SQFVM_RUNTIME_VERIF
             m_run_atomic = false;
 #ifdef DF__SQF_RUNTIME__ASSEMBLY_DEBUG_ON_EXECUTE
             std::cout << "\x1B[33m[ASSEMBLY ASSERT]\033[0m" <<
@@ -318,6 +342,9 @@ sqf::runtime::runtime::result sqf::runtime::runtime::execute(sqf::runtime::runti
     case action::start:
         if (m_run_atomic.compare_exchange_weak(expected, true, std::memory_order::memory_order_seq_cst, std::memory_order::memory_order_seq_cst))
         {
+#ifdef SQFVM_RUNTIME_VERIF
+            if (sqf::runtime::verif::get_hooks().yield) { sqf::runtime::verif::get_hooks().yield(*this, sqf::runtime::verif::cas_start); }
+#endif // SQFVM_RUNTIME_VERIF
             m_is_exit_requested = false;
             m_is_halt_requested = false;
             m_state = state::running;
@@ -326,12 +353,19 @@ sqf::runtime::runtime::result sqf::runtime::runtime::execute(sqf::runtime::runti
                 for (size_t i = 0; i < m_contexts.size(); i++)
                 {
                     m_context_active = m_contexts[i];
+#ifdef SQFVM_RUNTIME_VERIF
+                    if (sqf::runtime::verif::get_hooks().on_visit) { sqf::runtime::verif::get_hooks().on_visit(*this, i); }
+#endif // SQFVM_RUNTIME_VERIF
                     if (m_context_active->suspended())
                     {
                         if (m_context_active->wakeup_timestamp() <= std::chrono::system_clock::now())
                         {
                             m_context_active->unsuspend();
+#ifdef SQFVM_RUNTIME_VERIF
+                            res = execute_do(*this, sqf::runtime::verif::get_hooks().slice_length ? sqf::runtime::verif::get_hooks().slice_length(*this, 150) : 150);
+#else
                             res = execute_do(*this, 150);
+#endif // SQFVM_RUNTIME_VERIF
                         }
                         else
                         {
@@ -340,8 +374,15 @@ sqf::runtime::runtime::result sqf::runtime::runtime::execute(sqf::runtime::runti
                     }
                     else
                     {
+#ifdef SQFVM_RUNTIME_VERIF
+                        res = execute_do(*this, sqf::runtime::verif::get_hooks().slice_length ? sqf::runtime::verif::get_hooks().slice_length(*this, 150) : 150);
+#else
                         res = execute_do(*this, 150);
+#endif // SQFVM_RUNTIME_VERIF
                     }
+#ifdef SQFVM_RUNTIME_VERIF
+                    if (sqf::runtime::verif::get_hooks().on_visit_done) { sqf::runtime::verif::get_hooks().on_visit_done(*this, i, static_cast<int>(res)); }
+#endif // SQFVM_RUNTIME_VERIF
                     if (m_is_exit_requested)
                     {
                         m_contexts.clear();
@@ -401,6 +442,9 @@ sqf::runtime::runtime::result sqf::runtime::runtime::execute(sqf::runtime::runti
                 m_context_active = {};
                 m_state = state::empty;
             }
+#ifdef SQFVM_RUNTIME_VERIF
+            if (sqf::runtime::verif::get_hooks().yield) { sqf::runtime::verif::get_hooks().yield(*this, sqf::runtime::verif::release_start); }
+#endif // SQFVM_RUNTIME_VERIF
             m_run_atomic = false;
 #ifdef DF__SQF_RUNTIME__ASSEMBLY_DEBUG_ON_EXECUTE
             std::cout << "\x1B[33m[ASSEMBLY ASSERT]\033[0m" <<
@@ -417,6 +461,9 @@ sqf::runtime::runtime::result sqf::runtime::runtime::execute(sqf::runtime::runti
     case action::assembly_step:
         if (m_run_atomic.compare_exchange_weak(expected, true, std::memory_order::memory_order_seq_cst, std::memory_order::memory_order_seq_cst))
         {
+#ifdef SQFVM_RUNTIME_VERIF
+            if (sqf::runtime::verif::get_hooks().yield) { sqf::runtime::verif::get_hooks().yield(*this, sqf::runtime::verif::cas_assembly_step); }
+#endif // SQFVM_RUNTIME_VERIF
             m_is_exit_requested = false;
             m_is_halt_requested = false;
             m_state = state::running;
@@ -441,6 +488,9 @@ sqf::runtime::runtime::result sqf::runtime::runtime::execute(sqf::runtime::runti
                 m_context_active = {};
                 m_state = state::empty;
             }
+#ifdef SQFVM_RUNTIME_VERIF
+            if (sqf::runtime::verif::get_hooks().yield) { sqf::runtime::verif::get_hooks().yield(*this, sqf::runtime::verif::release_assembly_step); }
+#endif // SQFVM_RUNTIME_VERIF
             m_run_atomic = false;
 #ifdef DF__SQF_RUNTIME__ASSEMBLY_DEBUG_ON_EXECUTE
             std::cout << "\x1B[33m[ASSEMBLY ASSERT]\033[0m" <<
@@ -457,6 +507,9 @@ sqf::runtime::runtime::result sqf::runtime::runtime::execute(sqf::runtime::runti
     case action::line_step:
         if (m_run_atomic.compare_exchange_weak(expected, true, std::memory_order::memory_order_seq_cst, std::memory_order::memory_order_seq_cst))
         {
+#ifdef SQFVM_RUNTIME_VERIF
+            if (sqf::runtime::verif::get_hooks().yield) { sqf::runtime::verif::get_hooks().yield(*this, sqf::runtime::verif::cas_line_step); }
+#endif // SQFVM_RUNTIME_VERIF
             m_is_exit_requested = false;
             m_is_halt_requested = false;
             bool success;
@@ -508,6 +561,9 @@ sqf::runtime::runtime::result sqf::runtime::runtime::execute(sqf::runtime::runti
                 m_context_active = {};
                 m_state = state::empty;
             }
+#ifdef SQFVM_RUNTIME_VERIF
+            if (sqf::runtime::verif::get_hooks().yield) { sqf::runtime::verif::get_hooks().yield(*this, sqf::runtime::verif::release_line_step); }
+#endif // SQFVM_RUNTIME_VERIF
             m_run_atomic = false;
 #ifdef DF__SQF_RUNTIME__ASSEMBLY_DEBUG_ON_EXECUTE
             std::cout << "\x1B[33m[ASSEMBLY ASSERT]\033[0m" <<
@@ -534,6 +590,9 @@ sqf::runtime::runtime::result sqf::runtime::runtime::execute(sqf::runtime::runti
         }
         else
         {
+#ifdef SQFVM_RUNTIME_VERIF
+            if (sqf::runtime::verif::get_hooks().yield) { sqf::runtime::verif::get_hooks().yield(*this, sqf::runtime::verif::stop_before_store); }
+#endif // SQFVM_RUNTIME_VERIF
             m_is_exit_requested = true;
             res = result::ok;
         }
@@ -547,6 +606,9 @@ sqf::runtime::runtime::result sqf::runtime::runtime::execute(sqf::runtime::runti
             }
             else
             {
+#ifdef SQFVM_RUNTIME_VERIF
+                if (sqf::runtime::verif::get_hooks().yield) { sqf::runtime::verif::get_hooks().yield(*this, sqf::runtime::verif::abort_before_store); }
+#endif // SQFVM_RUNTIME_VERIF
                 m_is_exit_requested = true;
                 res = result::ok;
             }
@@ -555,10 +617,16 @@ sqf::runtime::runtime::result sqf::runtime::runtime::execute(sqf::runtime::runti
         {
             if (m_run_atomic.compare_exchange_weak(expected, true, std::memory_order::memory_order_seq_cst, std::memory_order::memory_order_seq_cst))
             {
+#ifdef SQFVM_RUNTIME_VERIF
+                if (sqf::runtime::verif::get_hooks().yield) { sqf::runtime::verif::get_hooks().yield(*this, sqf::runtime::verif::cas_abort); }
+#endif // SQFVM_RUNTIME_VERIF
                 m_contexts.clear();
                 m_context_active = {};
                 m_state = state::empty;
                 res = result::ok;
+#ifdef SQFVM_RUNTIME_VERIF
+                if (sqf::runtime::verif::get_hooks().yield) { sqf::runtime::verif::get_hooks().yield(*this, sqf::runtime::verif::release_abort); }
+#endif // SQFVM_RUNTIME_VERIF
                 m_run_atomic = false;
             }
             else
